@@ -643,7 +643,7 @@ class ComputeGraph(MultiDiGraph):
                     if not fi_is_vec and fj_ncols == 1:
                         d = sp.diff(f_i, fresh_sym)
                         if d != 0:
-                            J_hist[d_str][(i_row, j_col)] = d
+                            J_hist[d_str][(i_row, fj_idx)] = d
                     j_col += fj_ncols
 
             i_row += fi_nrows
